@@ -2,12 +2,6 @@
     [Inh] additionally aligns the class / def tables of the environment with the model's name maps position by
     position ([CF2], [DF2]); [Pre2] carries the typed locals [TL]; the record-body and multiclass relations carry
     the types of their frame part by part ([RT], [MT]).  Copy of ScopeSimRec.v, extended. *)
-(** ScopeSimRec: towards the agreement of the indexer model with ScopeSpec for ALL statements of the fragment
-    (records included).  This file provides the relation that survives arena growth:
-    - [LocR]: the declaration range of an existing symbol never changes (all programs);
-    - [Pre2]: the relation between a specification environment and a model state, split into its local
-      (frames / scope stack) and global (defs, defsets, classes, multiclasses) parts; it implies [Pre];
-    - [globals_step]: what a block-like statement does to the lookups of its surroundings. *)
 From Coq Require Import List NArith Bool Lia Arith.
 From TG.Model Require Import CoreAst Scope BangOps Indexer .
 From TG.Model Require Import ScopeSpecT.
@@ -98,7 +92,7 @@ Qed.
 Definition CFo (open : option N) (e : env) (s : st) : Prop :=
   forall nm ci, lookup nm (e_cls e) = Some ci ->
     exists cid, find_class s nm = Some cid /\ nthN (s_recs s) cid <> None /\
-                (open <> Some cid -> FLD s cid (ci_fields ci)).
+                (open <> Some cid -> FLD s cid (ci_fields ci) /\ FLDT s cid (ci_ftys ci)).
 Definition Inh (open : option N) (e : env) (s : st) : Prop :=
   REC (s_recs s) /\ CFo open e s /\ CF2 open e s /\ DF2 open e s.
 
@@ -115,6 +109,13 @@ Proof.
   intros Ho. apply (FLD_same_recs s s'); auto.
 Qed.
 
+Lemma CRT_eq : forall o s s' ci id,
+    CRT o s ci id -> REC (s_recs s) -> s_recs s' = s_recs s -> s_nclass s' = s_nclass s -> s_ndef s' = s_ndef s ->
+    (exists ext, s_leaves s' = s_leaves s ++ ext) -> CRT o s' ci id.
+Proof.
+  intros o s s' ci id [A B] HR Hr Hn Hnd Hl. split; [now apply (CR_eq o s s')|].
+  intros Ho. apply (FLDT_same_recs s s'); auto. now apply GRW_same.
+Qed.
 (** anything that leaves the records and the class / def names alone (and only appends leaves) *)
 Lemma Inh_eq : forall o e e' s s',
     Inh o e s -> e_cls e' = e_cls e -> e_dtbl e' = e_dtbl e -> e_defs e' = e_defs e ->
@@ -123,11 +124,12 @@ Lemma Inh_eq : forall o e e' s s',
 Proof.
   intros o e e' s s' (HR & HC & H2 & [D1 D2]) He Hdt Hde Hr Hn Hnd Hl. split; [now rewrite Hr|]. split; [|split; [|split]].
   - intros nm ci H. rewrite He in H. destruct (HC nm ci H) as (cid & A & B & C).
-    exists cid. unfold find_class in *. rewrite Hn, Hr. repeat split; auto.
-    intros Ho. specialize (C Ho).
-    apply (FLD_mono s s' cid (ci_fields ci) (N.succ cid)); auto; [lia|]. intros id _. now rewrite Hr.
+    exists cid. unfold find_class in *. rewrite Hn, Hr. split; [exact A|]. split; [exact B|].
+    intros Ho. destruct (C Ho) as [C1 C2]. split.
+    + apply (FLD_mono s s' cid (ci_fields ci) (N.succ cid)); auto; [lia|]. intros id _. now rewrite Hr.
+    + apply (FLDT_same_recs s s'); auto. now apply GRW_same.
   - unfold CF2 in *. rewrite He, Hn. eapply Forall2_imp; [|exact H2].
-    intros a b [X Y]. split; [exact X|]. now apply (CR_eq o s s').
+    intros a b [X Y]. split; [exact X|]. now apply (CRT_eq o s s').
   - rewrite Hdt, Hnd. eapply Forall2_imp; [|exact D1].
     intros a b (X & Y & Z). split; [exact X|]. split; [now apply (CR_eq o s s')|]. now rewrite Hr.
   - now rewrite Hde, Hdt.
@@ -140,11 +142,15 @@ Proof.
   { destruct (nthN (s_recs s) id) eqn:E; [|congruence]. apply nthN_some_lt in E. unfold lenN in Hle. lia. }
   split; [intros _; apply B; discriminate|]. intros X. congruence.
 Qed.
+Lemma CRT_fresh : forall s ci id rid, CRT None s ci id -> lenN (s_recs s) <= rid -> CRT (Some rid) s ci id.
+Proof.
+  intros s ci id rid [A B] Hle. split; [now apply CR_fresh|]. intros _. apply B. discriminate.
+Qed.
 Lemma Inh_fresh : forall e s rid, Inh None e s -> lenN (s_recs s) <= rid -> Inh (Some rid) e s.
 Proof.
   intros e s rid (HR & HC & H2 & [D1 D2]) Hle. split; [exact HR|]. split; [|split; [|split]].
-  - intros nm ci H. destruct (HC nm ci H) as (cid & A & B & C). exists cid. repeat split; auto. intros _. apply C. discriminate.
-  - eapply Forall2_imp; [|exact H2]. intros a b [X Y]. split; [exact X|now apply CR_fresh].
+  - intros nm ci H. destruct (HC nm ci H) as (cid & A & B & C). exists cid. split; [exact A|]. split; [exact B|]. intros _. apply C. discriminate.
+  - eapply Forall2_imp; [|exact H2]. intros a b [X Y]. split; [exact X|now apply CRT_fresh].
   - eapply Forall2_imp; [|exact D1]. intros a b (X & Y & Z). split; [exact X|]. split; [now apply CR_fresh|exact Z].
   - exact D2.
 Qed.
@@ -301,19 +307,6 @@ Proof.
   - intros nm H. rewrite Hmcl in H. auto.
 Qed.
 
-(** ---- growth: leaves are only appended, class and def names only added in front *)
-Definition GRW (s s' : st) : Prop :=
-  (exists ext, s_leaves s' = s_leaves s ++ ext) /\ (exists pre, s_nclass s' = pre ++ s_nclass s) /\
-  (exists pre, s_ndef s' = pre ++ s_ndef s).
-Lemma GRW_refl : forall s, GRW s s.
-Proof. intros s. split; [exists []; now rewrite app_nil_r|]. split; exists []; reflexivity. Qed.
-Lemma GRW_trans : forall a b c, GRW a b -> GRW b c -> GRW a c.
-Proof.
-  intros a b c ([x1 A1] & [y1 A2] & [z1 A3]) ([x2 B1] & [y2 B2] & [z2 B3]). split; [|split].
-  - exists (x1 ++ x2). now rewrite B1, A1, app_assoc.
-  - exists (y2 ++ y1). now rewrite B2, A2, app_assoc.
-  - exists (z2 ++ z1). now rewrite B3, A3, app_assoc.
-Qed.
 Ltac grw_prim :=
   intros; let s := fresh "s" in intros s;
   unfold add_reference, scopes_add_variable, add_leaf, add_leaf_nopos, add_defset, add_record, add_anonymous_def,
@@ -324,28 +317,6 @@ Ltac grw_prim :=
   (split; first [exists []; reflexivity|eexists (_ :: nil); reflexivity]).
 Lemma GRW_index_stmt : forall files n x, resp GRW (index_stmt files n x).
 Proof. intros. apply (r_index_stmt GRW GRW_refl GRW_trans); grw_prim. Qed.
-
-Lemma nth_decl_app : forall V (pre l : list (name * V)) k x, nth_decl l k = Some x -> nth_decl (pre ++ l) k = Some x.
-Proof.
-  intros V pre l k x H. unfold nth_decl in *. rewrite app_length.
-  destruct (Nat.ltb_spec k (length l)) as [E|E]; [|discriminate].
-  destruct (Nat.ltb_spec k (length pre + length l)); [|lia].
-  rewrite nth_error_app2 by lia. replace (length pre + length l - S k - length pre)%nat with (length l - S k)%nat by lia.
-  exact H.
-Qed.
-Lemma TYPm_GRW : forall s s' t ty, GRW s s' -> TYPm s t ty -> TYPm s' t ty.
-Proof.
-  intros s s' t ty (_ & [p1 Hc] & [p2 Hd]) H. destruct ty as [|k|k]; simpl in *; [exact I| |].
-  - destruct H as (n0 & cid & n1 & A & B). exists n0, cid, n1. split; [|exact B]. rewrite Hc. now apply nth_decl_app.
-  - destruct H as (n0 & did & n1 & A & B). exists n0, did, n1. split; [|exact B]. rewrite Hd. now apply nth_decl_app.
-Qed.
-Lemma TYPS_GRW : forall s s' sym ty, GRW s s' -> TYPS s sym ty -> TYPS s' sym ty.
-Proof.
-  intros s s' sym ty G H. pose proof G as ([ext Hl] & _).
-  destruct ty as [|k|k]; simpl in *; [exact I| |]; destruct H as (id & lf & A & B & K & C); exists id, lf.
-  - split; [exact A|]. split; [rewrite Hl; now apply nthN_app_some|]. split; [exact K|]. exact (TYPm_GRW s s' (lf_ty lf) (TCls k) G C).
-  - split; [exact A|]. split; [rewrite Hl; now apply nthN_app_some|]. split; [exact K|]. exact (TYPm_GRW s s' (lf_ty lf) (TDef k) G C).
-Qed.
 
 Definition globals_equiv (e e' : env) : Prop :=
   (forall nm, lookup_class e' nm = lookup_class e nm) /\ e_mcs e' = e_mcs e /\ e_defs e' = e_defs e /\ e_dsets e' = e_dsets e.
@@ -437,20 +408,20 @@ Proof.
   intros. unfold find_local, pushed; simpl.
   unfold scope_find at 1, sc_find_variable; simpl. destruct (name_eqb nm nmv); reflexivity.
 Qed.
-Lemma Pre2_pushed_foreach : forall f e s i vid loc,
-    Pre2 f e s -> option_map lf_loc (nthN (s_leaves s) vid) = Some loc ->
-    Pre2 f (push_vars e [(i_name i, loc)]) (pushed (KForeach (i_name i) vid) s).
+Lemma Pre2_pushed_foreach : forall f e s i vid loc ty,
+    Pre2 f e s -> option_map lf_loc (nthN (s_leaves s) vid) = Some loc -> TYPS s (SyLeaf vid) ty ->
+    Pre2 f (push_tvar e (i_name i) loc ty) (pushed (KForeach (i_name i) vid) s).
 Proof.
-  intros f e s i vid loc [F L1 L2 D1 D2 S1 S2 C1 C2 M1 M2 TLx] Hl. split; auto.
-  - intros nm d H. unfold locals_of, push_vars in H. simpl in H. unfold frame_lookup at 1 in H. simpl in H.
+  intros f e s i vid loc ty0 [F L1 L2 D1 D2 S1 S2 C1 C2 M1 M2 TLx] Hl Hty0. split; auto.
+  - intros nm d H. unfold locals_of, push_tvar in H. simpl in H. unfold frame_lookup at 1 in H. simpl in H.
     rewrite find_local_pushed_foreach. destruct (name_eqb nm (i_name i)).
     + injection H as <-. exists (SyLeaf vid). split; [reflexivity|exact Hl].
     + destruct (L1 nm d H) as [sym [A B]]. exists sym. auto.
-  - intros nm H. unfold locals_of, push_vars in H. simpl in H. unfold frame_lookup at 1 in H. simpl in H.
+  - intros nm H. unfold locals_of, push_tvar in H. simpl in H. unfold frame_lookup at 1 in H. simpl in H.
     rewrite find_local_pushed_foreach. destruct (name_eqb nm (i_name i)); [discriminate|]. now apply L2.
   - intros nm sym ty H1 H2. rewrite find_local_pushed_foreach in H1.
-    unfold push_vars in H2. simpl in H2. unfold tframe_lookup at 1 in H2. simpl in H2.
-    destruct (name_eqb nm (i_name i)); [injection H2 as <-; exact I|]. exact (TLx nm sym ty H1 H2).
+    unfold push_tvar in H2. simpl in H2. unfold tframe_lookup at 1 in H2. simpl in H2.
+    destruct (name_eqb nm (i_name i)); [injection H2 as <-; injection H1 as <-; exact Hty0|]. exact (TLx nm sym ty H1 H2).
 Qed.
 Lemma Stat_pushed_foreach : forall nmv vid s, Stat s -> Stat (pushed (KForeach nmv vid) s).
 Proof.
@@ -1041,8 +1012,9 @@ Section CasesB4.
     intros i init b f e s Hfi Hfb P T He HI HR Hb.
     pose proof (finish_block_like files (S n) (SForeach i init b) f e) as FIN.
     set (final := snd (index_stmt files (S n) (SForeach i init b) s)) in *.
-    rewrite spec_foreach in *.
-    set (e2 := push_vars e [(i_name i, at_file f (i_rng i))]) in *.
+    rewrite spec_foreach in *. cbv zeta in HR |- *.
+    set (vty := match init with FeRange => TUnk | FeValue v => elem_sty (sty_value e v) end) in *.
+    set (e2 := push_tvar e (i_name i) (at_file f (i_rng i)) vty) in *.
     destruct (spec_stmts f e2 b) as [ev1 e1] eqn:Eb. simpl in HR |- *.
     rewrite forallb_app in HR. apply andb_true_iff in HR. destruct HR as [HR0 HR1].
     set (ev0 := match init with FeRange => [] | FeValue v => spec_value f e v end) in *.
@@ -1079,7 +1051,19 @@ Section CasesB4.
     assert (Hloc : loc = at_file f (i_rng i)) by (unfold loc, at_file; now rewrite (p2_file f e s P)).
     assert (Hleaf : option_map lf_loc (nthN (s_leaves s2) (lenN (s_leaves s1))) = Some (at_file f (i_rng i))).
     { unfold s2. rewrite leaves_add_leaf, nthN_app_last. simpl. now rewrite Hloc. }
-    pose proof (Pre2_pushed_foreach f e s2 i (lenN (s_leaves s1)) (at_file f (i_rng i)) P2 Hleaf) as P3.
+    assert (Htv : TYPm s1 (lf_ty (lf o)) vty).
+    { unfold vty, minit in *. destruct init as [|v]; [exact I|].
+      destruct (sty_value e v) as [|kc|kd|ty'] eqn:Esv; try exact I. cbn [elem_sty].
+      pose proof (value_typed n v f e s (Pre2_Pre0 _ _ _ P (sta_norec _ T) HI) HR0) as X. rewrite Esv in X.
+      unfold bind in Ei. destruct (index_value n v s) as [[t|] s1'] eqn:Ev; cbn [fst snd] in Ei, X.
+      - unfold lift in Ei. injection Ei as Eo Es1. subst s1'. specialize (X Hb1). simpl in X.
+        destruct X as (t' & -> & Hm). simpl in Eo. subst o. exact Hm.
+      - injection Ei as Eo Es1. subst s1'. specialize (X Hb1). simpl in X. destruct X as (t' & Hx & _). discriminate. }
+    assert (Hty3 : TYPS s2 (SyLeaf (lenN (s_leaves s1))) vty).
+    { apply TYPS_iff. right. exists (lenN (s_leaves s1)), (lf o). split; [reflexivity|].
+      split; [unfold s2; rewrite leaves_add_leaf; apply nthN_app_last|]. split; [discriminate|].
+      destruct S1 as [_ V1 _ _]. exact (TYPm_VR s1 s2 _ _ V1 Htv). }
+    pose proof (Pre2_pushed_foreach f e s2 i (lenN (s_leaves s1)) (at_file f (i_rng i)) vty P2 Hleaf Hty3) as P3.
     fold e2 in P3. change (KForeach (i_name i) (lenN (s_leaves s1))) with (k s1) in P3.
     assert (Hb3 := Hb). apply scoped_bad in Hb3.
     pose proof (stmtsB_sim files n IH b f e2 (pushed (k s1) s2) Hfb P3 (Stat_pushed_foreach _ _ s2 T2)) as R3.
@@ -1541,6 +1525,21 @@ Proof.
   destruct (name_eqb nm k); [split; discriminate|exact IH].
 Qed.
 
+Lemma lookup_align : forall nm l ft ty, lookup nm (align l ft) = Some ty ->
+    ty = match lookup nm ft with Some t => t | None => TUnk end.
+Proof.
+  intros nm l ft ty. induction l as [|[k v] r IH]; simpl; [discriminate|].
+  destruct (name_eqb nm k) eqn:E; [|exact IH]. intros H. injection H as <-.
+  apply name_eqb_eq in E. now subst k.
+Qed.
+Lemma lookup_align_none : forall nm l ft, lookup nm (align l ft) = None <-> lookup nm l = None.
+Proof.
+  intros nm l ft. induction l as [|[k v] r IH]; simpl; [tauto|].
+  destruct (name_eqb nm k); [split; discriminate|exact IH].
+Qed.
+Lemma align_nil : forall ft, align [] ft = [].
+Proof. reflexivity. Qed.
+
 (** the classes other than the open record keep their field tables when the open (newest) record changes *)
 Lemma CR_rec_update : forall s s' rid g tb id,
     CR (Some rid) s tb id -> REC (s_recs s) -> rec_update s s' rid g -> lenN (s_recs s) = N.succ rid ->
@@ -1556,6 +1555,20 @@ Proof.
       assert (id <> rid) by congruence. unfold lenN in Hlast. lia. }
     apply (FLD_mono s s' id tb rid); auto.
     intros j Hj. rewrite Hr, nthN_set_nth. destruct (N.eqb_spec rid j); [lia|reflexivity].
+Qed.
+Lemma CRT_rec_update : forall s s' rid g ci id,
+    CRT (Some rid) s ci id -> REC (s_recs s) -> rec_update s s' rid g -> lenN (s_recs s) = N.succ rid ->
+    CRT (Some rid) s' ci id.
+Proof.
+  intros s s' rid g ci id [A B] HR U Hlast. split; [eapply CR_rec_update; eassumption|].
+  intros Ho. specialize (B Ho). destruct A as (Av & _).
+  pose proof U as (Hs & Hm & Ht & Hc & Hd & Hmc & Hds & Hl & Hr).
+  assert (Hlt : id < rid).
+  { destruct (nthN (s_recs s) id) as [rc|] eqn:E; [|congruence]. apply nthN_some_lt in E.
+    assert (id <> rid) by congruence. unfold lenN in Hlast. lia. }
+  apply (FLDT_mono s s' id (ci_ftys ci) rid); auto.
+  - intros j Hj. rewrite Hr, nthN_set_nth. destruct (N.eqb_spec rid j); [lia|reflexivity].
+  - now apply GRW_same.
 Qed.
 Lemma Inh_rec_update : forall e e' s s' rid g,
     Inh (Some rid) e s -> rec_update s s' rid g -> lenN (s_recs s) = N.succ rid ->
@@ -1580,9 +1593,10 @@ Proof.
       assert (Hlt : cid < rid).
       { destruct (nthN (s_recs s) cid) as [rc|] eqn:E; [|congruence]. apply nthN_some_lt in E.
         assert (cid <> rid) by congruence. unfold lenN in Hlast. lia. }
-      apply (FLD_mono s s' cid (ci_fields ci) rid); auto.
+      destruct C as [C1 C2]. split; [apply (FLD_mono s s' cid (ci_fields ci) rid); auto|].
+      apply (FLDT_mono s s' cid (ci_ftys ci) rid); auto. now apply GRW_same.
   - unfold CF2 in *. rewrite He, Hc. eapply Forall2_imp; [|exact H2].
-    intros a b [X Y]. split; [exact X|]. eapply CR_rec_update; eassumption.
+    intros a b [X Y]. split; [exact X|]. eapply CRT_rec_update; eassumption.
   - rewrite Hdt, Hd. eapply Forall2_imp; [|exact D1].
     intros a b (X & Y & Z). split; [exact X|]. split; [eapply CR_rec_update; eassumption|].
     intros r H. rewrite Hr, nthN_set_nth in H. destruct (N.eqb rid (snd b)); [|now apply Z].
@@ -1698,9 +1712,8 @@ Lemma TYPS_new_leaf : forall s s' l sty id,
     TYPm s (lf_ty l) sty -> lf_kind l <> LDefm -> nthN (s_leaves s') id = Some l ->
     GRW s s' -> TYPS s' (SyLeaf id) sty.
 Proof.
-  intros s s' l sty id Hty Hk Hid G. destruct sty as [|k|k]; simpl; [exact I| |]; exists id, l; repeat split; auto.
-  - exact (TYPm_GRW s s' (lf_ty l) (TCls k) G Hty).
-  - exact (TYPm_GRW s s' (lf_ty l) (TDef k) G Hty).
+  intros s s' l sty id Hty Hk Hid G. apply TYPS_iff. right. exists id, l.
+  split; [reflexivity|]. split; [exact Hid|]. split; [exact Hk|]. exact (TYPm_GRW s s' (lf_ty l) sty G Hty).
 Qed.
 Lemma GRW_rec_update : forall s s' rid g, rec_update s s' rid g -> GRW s s'.
 Proof.
@@ -2009,11 +2022,12 @@ Proof.
     + rewrite app_nil_r. rewrite <- (app_nil_r (spec_ty f e t)). eapply ResR_trans; [exact R1|exact R2].
   - (* let *)
     rewrite (let_state_eq n i v rid s (RB_current _ _ _ _ R)) in *.
+    set (lty := match lookup (i_name i) (top_tfields e) with Some t0 => t0 | None => TUnk end).
     change (spec_item f e (ILet i v)) with
       ((at_file f (i_rng i), lookup (i_name i) (top_fields e))
-         :: spec_value f (tset_field (add_field e (i_name i) (at_file f (i_rng i))) (i_name i) TUnk) v,
-       tset_field (add_field e (i_name i) (at_file f (i_rng i))) (i_name i) TUnk) in *.
-    simpl in HR, Hf |- *. set (e1 := tset_field (add_field e (i_name i) (at_file f (i_rng i))) (i_name i) TUnk) in *.
+         :: spec_value f (tset_field (add_field e (i_name i) (at_file f (i_rng i))) (i_name i) lty) v,
+       tset_field (add_field e (i_name i) (at_file f (i_rng i))) (i_name i) lty) in *.
+    simpl in HR, Hf |- *. set (e1 := tset_field (add_field e (i_name i) (at_file f (i_rng i))) (i_name i) lty) in *.
     apply andb_true_iff in HR. destruct HR as [HR1 HRv]. unfold resolved in HR1; simpl in HR1.
     unfold let_state in *.
     set (loc := mkR (current_file s) (r_lo (i_rng i)) (r_hi (i_rng i))) in *.
@@ -2024,12 +2038,19 @@ Proof.
     rewrite Htop in *.
     destruct (lookup (i_name i) (fr_fields fr)) as [d|] eqn:El; [|discriminate].
     pose proof (Af (i_name i)) as Afi.
-    destruct (find_field (rec_fuel s) (s_recs s) rid (i_name i)) as [fid|]; [|congruence].
-    destruct Afi as [fl [Hfl Hd]]. rewrite Hfl in *.
+    destruct (find_field (rec_fuel s) (s_recs s) rid (i_name i)) as [fid|] eqn:Hff; [|congruence].
+    destruct Afi as [fl [Hfl Hd]].
+    assert (Hty : TYPm s (lf_ty fl) lty).
+    { unfold lty, top_tfields. pose proof HT as (tf & tfs & Htf & _ & _ & _ & _ & FT & _). rewrite Htf.
+      destruct (lookup (i_name i) (tf_fields tf)) as [ty|] eqn:Ety; [|exact I].
+      specialize (FT (i_name i) fid ty Hff Ety).
+      apply TYPS_iff in FT. destruct FT as [->|(id & lf' & A & B & K & C)]; [exact I|]. injection A as <-. rewrite Hfl in B.
+      injection B as <-. exact C. }
+    rewrite Hfl in *.
     assert (Hdd : d = lf_loc fl) by congruence. subst d.
     set (lf := mkLeaf LField (i_name i) (lf_ty fl) false loc) in *.
-    pose proof (RB_add_field f e s rid lf TUnk (mkRB f e s rid vars t fr frs rc Hsc Hfe Hrec Hlast Av Af At HI HS HT T1 T2 T3) G I) as R2.
-    assert (Ee : tset_field (add_field e (lf_name lf) (lf_loc lf)) (lf_name lf) TUnk = e1) by (unfold e1, lf; simpl; now rewrite Hloc).
+    pose proof (RB_add_field f e s rid lf lty (mkRB f e s rid vars t fr frs rc Hsc Hfe Hrec Hlast Av Af At HI HS HT T1 T2 T3) G Hty) as R2.
+    assert (Ee : tset_field (add_field e (lf_name lf) (lf_loc lf)) (lf_name lf) lty = e1) by (unfold e1, lf; simpl; now rewrite Hloc).
     rewrite Ee in R2. specialize (R2 ltac:(discriminate)). change (ResR f s (after_decl s rid lf) [] e1 rid) in R2.
     set (s3 := after_decl s rid lf) in *. pose proof R2 as [_ _ Rb3 G3 _].
     pose proof (Step_add_reference s3 (SyLeaf fid) loc) as Sr.
@@ -2228,11 +2249,11 @@ Proof.
   - now rewrite Hl.
 Qed.
 
-Lemma Pre2g_add_record : forall f e s nm (cls : bool) loc flds,
+Lemma Pre2g_add_record : forall f e s nm (cls : bool) loc flds ftys,
     Pre2g f e s ->
-    Pre2g f (if cls then set_cls e nm (mkCi loc flds) else set_def e nm loc) (snd (add_record nm cls loc s)).
+    Pre2g f (if cls then set_cls e nm (mkCi loc flds ftys) else set_def e nm loc) (snd (add_record nm cls loc s)).
 Proof.
-  intros f e s nm cls loc flds [F D1 D2 S1 S2 C1 C2 M1 M2].
+  intros f e s nm cls loc flds ftys [F D1 D2 S1 S2 C1 C2 M1 M2].
   destruct (add_record_facts nm cls loc s) as (Hsc & Hm & Hl & Ht & Hr & _ & _ & Hmc & Hds & Hn & _).
   set (s1 := snd (add_record nm cls loc s)) in *.
   assert (DL : forall sym d, define_loc s sym = Some d -> define_loc s1 sym = Some d)
@@ -2354,10 +2375,10 @@ Proof. intros. apply same_g5_spec_items. Qed.
 Lemma spec_class_nopar : forall f e i targs b,
     spec_stmt f e (SClass i targs [] b)
     = let loc := at_file f (i_rng i) in
-      let e1 := push_vars (set_cls e (i_name i) (mkCi loc [])) [] in
+      let e1 := push_vars (set_cls e (i_name i) (mkCi loc [] [])) [] in
       let '(ev1, e2) := match targs with Some l => spec_targs f e1 l | None => ([], e1) end in
       let '(ev3, e4) := spec_items f e2 b in
-      (ev1 ++ ev3, set_cls e (i_name i) (mkCi loc (top_fields e4))).
+      (ev1 ++ ev3, set_cls e (i_name i) (mkCi loc (top_fields e4) (top_tfields e4))).
 Proof.
   intros. simpl. destruct (match targs with Some l => spec_targs f _ l | None => _ end) as [ev1 e2].
   destruct (spec_items f e2 b) as [ev3 e4]. reflexivity.
@@ -2438,30 +2459,30 @@ Lemma record_mut_facts : forall s rid g rc,
 Proof.
   intros s rid g rc H. unfold record_mut. rewrite H. simpl. repeat split; auto. exists []. now rewrite app_nil_r.
 Qed.
-Lemma add_inherited_frames : forall e fr frs l, e_frames e = fr :: frs ->
-    e_frames (add_inherited e l) = mkFrame (fr_vars fr) (fr_fields fr ++ l) (fr_targs fr) :: frs.
-Proof. intros e fr frs l H. unfold add_inherited. rewrite H. reflexivity. Qed.
-Lemma same_globals_add_inherited : forall e l, same_globals e (add_inherited e l).
+Lemma add_inherited_frames : forall e fr frs l lt, e_frames e = fr :: frs ->
+    e_frames (add_inherited e l lt) = mkFrame (fr_vars fr) (fr_fields fr ++ l) (fr_targs fr) :: frs.
+Proof. intros e fr frs l lt H. unfold add_inherited. rewrite H. reflexivity. Qed.
+Lemma same_globals_add_inherited : forall e l lt, same_globals e (add_inherited e l lt).
 Proof. intros. unfold add_inherited. destruct (e_frames e); repeat split. Qed.
 
-Lemma same_g5_add_inherited : forall e l, same_g5 e (add_inherited e l).
+Lemma same_g5_add_inherited : forall e l lt, same_g5 e (add_inherited e l lt).
 Proof. intros. unfold add_inherited. destruct (e_frames e); repeat split. Qed.
-Lemma e_tfr_add_inherited : forall e fr frs tf tfs l, e_frames e = fr :: frs -> e_tfr e = tf :: tfs ->
-    e_tfr (add_inherited e l) = mkTF (tf_vars tf) (tf_fields tf ++ unk l) (tf_targs tf) :: tfs.
-Proof. intros e fr frs tf tfs l H1 H2. unfold add_inherited. rewrite H1. simpl. rewrite H2. reflexivity. Qed.
+Lemma e_tfr_add_inherited : forall e fr frs tf tfs l lt, e_frames e = fr :: frs -> e_tfr e = tf :: tfs ->
+    e_tfr (add_inherited e l lt) = mkTF (tf_vars tf) (tf_fields tf ++ align l lt) (tf_targs tf) :: tfs.
+Proof. intros e fr frs tf tfs l lt H1 H2. unfold add_inherited. rewrite H1. simpl. rewrite H2. reflexivity. Qed.
 
 (** one more parent class: its fields come behind what the record has *)
-Lemma RB_add_parent : forall f e s rid cid lc,
-    RB f e s rid -> Pre2g f e s -> cid < rid -> FLD s cid lc ->
-    ResR f s (snd (record_mut rid (rec_add_parent cid) s)) [] (add_inherited e lc) rid.
+Lemma RB_add_parent : forall f e s rid cid lc lt,
+    RB f e s rid -> Pre2g f e s -> cid < rid -> FLD s cid lc -> FLDT s cid lt ->
+    ResR f s (snd (record_mut rid (rec_add_parent cid) s)) [] (add_inherited e lc lt) rid.
 Proof.
-  intros f e s rid cid lc R G Hlt Hc.
+  intros f e s rid cid lc lt R G Hlt Hc Hct.
   destruct (RB_valid _ _ _ _ R) as [rc Hrc].
   destruct (record_mut_facts s rid (rec_add_parent cid) rc Hrc) as (U & Hu & Hn & _).
   set (s2 := snd (record_mut rid (rec_add_parent cid) s)) in *.
   pose proof (RB_inh _ _ _ _ R) as [HREC _].
   pose proof U as (_ & _ & _ & Hcl & _ & _ & _ & Hext & Hr3).
-  destruct (same_g5_add_inherited e lc) as [(A1 & A2 & A3 & A4) A5].
+  destruct (same_g5_add_inherited e lc lt) as [(A1 & A2 & A3 & A4) A5].
   split; auto.
   - eapply (RB_rec_update f e _ s s2 rid _ R U); try reflexivity; try assumption.
     + intros r p Hp. simpl in Hp. apply in_app_or in Hp. destruct Hp as [Hp|[<-|[]]]; [now left|now right].
@@ -2470,7 +2491,7 @@ Proof.
       split; [now apply add_inherited_frames|]. split; [reflexivity|]. split; [|split].
       * simpl. eapply (FLD_add_parent s s2 rid rc0 cid); eassumption.
       * simpl. now apply (AL_ext s s2).
-      * exists (mkTF (tf_vars tf) (tf_fields tf ++ unk lc) (tf_targs tf)), tfs.
+      * exists (mkTF (tf_vars tf) (tf_fields tf ++ align lc lt) (tf_targs tf)), tfs.
         split; [now apply (e_tfr_add_inherited e fr frs)|].
         split; [exact KV|]. split.
         { intros nm. simpl. rewrite !lookup_app. destruct (KF nm) as [K1 K2].
@@ -2478,7 +2499,7 @@ Proof.
           - split; discriminate.
           - specialize (K2 eq_refl). discriminate.
           - specialize (K1 eq_refl). discriminate.
-          - apply lookup_unk_none. }
+          - apply lookup_align_none. }
         split; [exact KT|]. split; [|split; [|split]].
         -- intros nm v ty H1 H2. apply (TYPS_rec_update s s2 rid _ _ _ U). eapply VT; eassumption.
         -- intros nm fid ty H1 H2. simpl in H2. rewrite lookup_app in H2.
@@ -2489,7 +2510,9 @@ Proof.
               injection H2 as <-. apply (TYPS_rec_update s s2 rid _ _ _ U). eapply FT; eassumption.
            ++ pose proof (Af nm) as Afn. rewrite Ex in Afn.
               assert (E1 : lookup nm (tf_fields tf) = None) by (now apply (KF nm)). rewrite E1 in H2.
-              rewrite (lookup_unk nm lc ty H2). exact I.
+              rewrite (lookup_align nm lc lt ty H2).
+              destruct (lookup nm lt) as [t0|] eqn:Et0; [|exact I].
+              apply (TYPS_rec_update s s2 rid _ _ _ U). eapply Hct; eassumption.
         -- intros nm id ty H1 H2. apply (TYPS_rec_update s s2 rid _ _ _ U). eapply TT; eassumption.
         -- intros nm sym ty H1 H2. pose proof U as (_ & Hm & _).
            rewrite (find_local_tail_eq t s s2 nm Hm T3) in H1.
@@ -2498,11 +2521,11 @@ Proof.
 Qed.
 
 (** a reference to the record itself (reported, not attached): the class has no fields yet *)
-Lemma RB_inherit_nil : forall f e s rid, RB f e s rid -> Pre2g f e s -> ResR f s s [] (add_inherited e []) rid.
+Lemma RB_inherit_nil : forall f e s rid lt, RB f e s rid -> Pre2g f e s -> ResR f s s [] (add_inherited e [] lt) rid.
 Proof.
-  intros f e s rid R G.
+  intros f e s rid lt R G.
   destruct R as [vars t fr frs rc Hsc Hfe Hrec Hlast Av Af At HI HS HT T1 T2 T3].
-  destruct (same_g5_add_inherited e []) as [(A & A2 & A3 & A4) A5].
+  destruct (same_g5_add_inherited e [] lt) as [(A & A2 & A3 & A4) A5].
   split; auto.
   - apply (mkRB f _ s rid vars t (mkFrame (fr_vars fr) (fr_fields fr ++ []) (fr_targs fr)) frs rc); auto.
     + now apply add_inherited_frames.
@@ -2510,7 +2533,7 @@ Proof.
     + eapply (Inh_eq _ e); [exact HI| | | | | | |]; auto. exists []. now rewrite app_nil_r.
     + intros n0 ci H1 H2. rewrite A in H1. eapply HS; eassumption.
     + destruct HT as (tf & tfs & Htf & KV & KF & KT & VT & FT & TT & TLt).
-      exists (mkTF (tf_vars tf) (tf_fields tf ++ unk []) (tf_targs tf)), tfs.
+      exists (mkTF (tf_vars tf) (tf_fields tf ++ align [] lt) (tf_targs tf)), tfs.
       split; [now apply (e_tfr_add_inherited e fr frs)|]. simpl. rewrite !app_nil_r.
       repeat split; try assumption; try apply KV; try apply KF; try apply KT.
   - apply (Pre2g_su f e); auto.
@@ -2535,7 +2558,7 @@ Lemma parent_sim : forall n c f e s rid,
     frag_classref c = true -> RB f e s rid -> Pre2g f e s ->
     forallb resolved (spec_classref f e c) = true ->
     s_bad (snd (parent_step n rid c s)) = false ->
-    ResR f s (snd (parent_step n rid c s)) (spec_classref f e c) (add_inherited e (classref_fields e c)) rid.
+    ResR f s (snd (parent_step n rid c s)) (spec_classref f e c) (add_inherited e (classref_fields e c) (classref_ftys e c)) rid.
 Proof.
   intros n [i args r] f e s rid Hf R G HR Hb.
   pose proof (RB_Pre _ _ _ _ R G) as P.
@@ -2544,7 +2567,8 @@ Proof.
     destruct (lookup (i_name i) (e_cls e)) as [ci|]; [eauto|discriminate]. }
   destruct Hl as [ci Hci].
   assert (Hcf : classref_fields e (CRef i args r) = ci_fields ci) by (simpl; now rewrite Hci).
-  rewrite Hcf.
+  assert (Hct : classref_ftys e (CRef i args r) = ci_ftys ci) by (simpl; now rewrite Hci).
+  rewrite Hcf, Hct.
   unfold parent_step, bind, try_ in *.
   destruct (resolve_class_ref_as_class n (CRef i args r) s) as [o s1] eqn:Er. cbn [fst snd] in *.
   assert (Hb1 : s_bad s1 = false).
@@ -2565,7 +2589,7 @@ Proof.
     assert (Hnil : ci_fields ci = []) by (eapply (RB_self _ _ _ _ R); eassumption).
     rewrite Hnil.
     pose proof (err_ResR f e s1 rid r DSelfInherit eq_refl Rb1 G1) as R2. pose proof R2 as [_ _ Rb2 G2 _].
-    pose proof (RB_inherit_nil f e _ rid Rb2 G2) as R3.
+    pose proof (RB_inherit_nil f e _ rid (ci_ftys ci) Rb2 G2) as R3.
     rewrite <- (app_nil_r (spec_classref f e (CRef i args r))). eapply ResR_trans; [exact R1|].
     change (@nil ev) with (@nil ev ++ []). eapply ResR_trans; [exact R2|exact R3].
   - destruct (RB_inh _ _ _ _ Rb1) as (_ & HC & _). destruct (HC _ _ Hci) as (cid' & A & B & C).
@@ -2573,9 +2597,9 @@ Proof.
     assert (Hlt : cid < rid).
     { destruct (nthN (s_recs s1) cid) as [rc0|] eqn:E; [|congruence]. apply nthN_some_lt in E.
       pose proof (RB_last _ _ _ _ Rb1) as Hl. unfold lenN in Hl. lia. }
-    pose proof (RB_add_parent f e s1 rid cid (ci_fields ci) Rb1 G1 Hlt) as R2.
-    rewrite <- (app_nil_r (spec_classref f e (CRef i args r))). eapply ResR_trans; [exact R1|]. apply R2.
-    apply C. congruence.
+    pose proof (RB_add_parent f e s1 rid cid (ci_fields ci) (ci_ftys ci) Rb1 G1 Hlt) as R2.
+    rewrite <- (app_nil_r (spec_classref f e (CRef i args r))). eapply ResR_trans; [exact R1|].
+    assert (Hne' : Some rid <> Some cid) by congruence. destruct (C Hne') as [C1' C2']. now apply R2.
 Qed.
 
 Lemma parents_rec_sim : forall n ps f e s rid,
@@ -2588,7 +2612,7 @@ Proof.
   - simpl. split; auto.
   - simpl in Hf. apply andb_true_iff in Hf. destruct Hf as [Hf1 Hf2].
     simpl in HR, Hb |- *. unfold seq in *.
-    destruct (spec_parents f (add_inherited e (classref_fields e c)) r) as [ev2 e2] eqn:E2. simpl in *.
+    destruct (spec_parents f (add_inherited e (classref_fields e c) (classref_ftys e c)) r) as [ev2 e2] eqn:E2. simpl in *.
     rewrite forallb_app in HR. apply andb_true_iff in HR. destruct HR as [HR1 HR2].
     assert (Hb1 : s_bad (snd (parent_step n rid c s)) = false).
     { eapply (bad_false_before _ (iterM (parent_step n rid) r)); [|exact Hb].
@@ -2643,6 +2667,18 @@ Proof.
   - rewrite Hr. destruct (nthN (s_recs s) id) as [x|] eqn:E; [|congruence]. now rewrite (nthN_app_some _ _ [r] _ _ E).
   - intros Ho. eapply FLD_app; eauto.
 Qed.
+Lemma CRT_app : forall o s s1 r ci id,
+    CRT o s ci id -> REC (s_recs s) -> s_recs s1 = s_recs s ++ [r] -> s_leaves s1 = s_leaves s ->
+    s_nclass s1 = s_nclass s -> s_ndef s1 = s_ndef s -> CRT o s1 ci id.
+Proof.
+  intros o s s1 r ci id [A B] HR Hr Hl Hn Hnd. split; [eapply CR_app; eassumption|].
+  intros Ho. specialize (B Ho). destruct A as (Av & _).
+  assert (Hlt : id < lenN (s_recs s)).
+  { destruct (nthN (s_recs s) id) eqn:E; [|congruence]. apply nthN_some_lt in E. unfold lenN. lia. }
+  apply (FLDT_mono s s1 id (ci_ftys ci) (lenN (s_recs s))); auto.
+  - intros j Hj. rewrite Hr. now apply nthN_app_lt.
+  - apply GRW_same; auto. exists []. now rewrite Hl, app_nil_r.
+Qed.
 Lemma class_false_app : forall s s1 r did,
     nthN (s_recs s) did <> None -> (forall r0, nthN (s_recs s) did = Some r0 -> rc_class r0 = false) ->
     s_recs s1 = s_recs s ++ [r] -> forall r0, nthN (s_recs s1) did = Some r0 -> rc_class r0 = false.
@@ -2667,8 +2703,13 @@ Proof.
   - intros n0 ci H. rewrite He in H. destruct (HC n0 ci H) as (cid & A & B & C).
     exists cid. unfold find_class in *. rewrite Hn. split; [exact A|]. split.
     + rewrite Hr. destruct (nthN (s_recs s) cid) as [x|] eqn:E; [|congruence]. now rewrite (nthN_app_some _ _ [r] _ _ E).
-    + intros Ho. eapply FLD_app; eauto.
-  - unfold CF2 in *. rewrite He, Hn. eapply Forall2_imp; [|exact H2]. intros a b [X Y]. split; [exact X|]. eapply CR_app; eassumption.
+    + intros Ho. destruct (C Ho) as [C1 C2]. split; [eapply FLD_app; eauto|].
+      assert (Hlt : cid < lenN (s_recs s)).
+      { destruct (nthN (s_recs s) cid) eqn:E; [|congruence]. apply nthN_some_lt in E. unfold lenN. lia. }
+      apply (FLDT_mono s s1 cid (ci_ftys ci) (lenN (s_recs s))); auto.
+      * intros id Hid. rewrite Hr. now apply nthN_app_lt.
+      * apply GRW_same; auto. exists []. now rewrite Hl, app_nil_r.
+  - unfold CF2 in *. rewrite He, Hn. eapply Forall2_imp; [|exact H2]. intros a b [X Y]. split; [exact X|]. eapply CRT_app; eassumption.
   - rewrite Hdt, Hnd. eapply Forall2_imp; [|exact D1]. intros a b (X & Y & Z). split; [exact X|]. split; [eapply CR_app; eassumption|].
     destruct Y as (Yv & _). eapply class_false_app; eassumption.
   - now rewrite Hde, Hdt.
@@ -2677,7 +2718,7 @@ Qed.
 Lemma Inh_app_cls : forall e s s1 r nm loc,
     Inh None e s -> s_recs s1 = s_recs s ++ [r] -> rc_parents r = [] -> s_leaves s1 = s_leaves s ->
     s_nclass s1 = (nm, lenN (s_recs s)) :: s_nclass s -> s_ndef s1 = s_ndef s ->
-    Inh (Some (lenN (s_recs s))) (set_cls e nm (mkCi loc [])) s1.
+    Inh (Some (lenN (s_recs s))) (set_cls e nm (mkCi loc [] [])) s1.
 Proof.
   intros e s s1 r nm loc HI Hr Hp Hl Hn Hnd.
   assert (HI2 : Inh (Some (lenN (s_recs s))) e (set_names (s_nclass s) (s_ndef s) (s_nmc s1) s1)).
@@ -2688,9 +2729,18 @@ Proof.
     destruct (name_eqb n0 nm).
     + exists (lenN (s_recs s)). split; [reflexivity|]. split; [rewrite Hr, nthN_app_last; discriminate|].
       intros Ho. congruence.
-    + destruct (HC n0 ci H) as (cid & A & B & C). exists cid. split; [exact A|]. split; [exact B|exact C].
-  - unfold CF2, set_cls. simpl. rewrite Hn. constructor; [|exact H2].
-    split; [reflexivity|]. simpl. split; [rewrite Hr, nthN_app_last; discriminate|]. split; [intros X; congruence|reflexivity].
+    + destruct (HC n0 ci H) as (cid & A & B & C). exists cid. split; [exact A|]. split; [exact B|].
+      intros Ho. destruct (C Ho) as [C1 C2]. split; [exact C1|].
+      apply (FLDT_same_recs (set_names (s_nclass s) (s_ndef s) (s_nmc s1) s1) s1); [exact C2|reflexivity|].
+      split; [exists []; simpl; now rewrite app_nil_r|].
+      split; [exists [(nm, lenN (s_recs s))]; simpl; exact Hn|exists []; simpl; exact Hnd].
+  - unfold CF2, set_cls. simpl. rewrite Hn. constructor.
+    + split; [reflexivity|]. split; [|intros X; simpl in X; congruence].
+      simpl. split; [rewrite Hr, nthN_app_last; discriminate|]. split; [intros X; congruence|reflexivity].
+    + eapply Forall2_imp; [|exact H2]. intros a b [X [Y1 Y2]]. split; [exact X|]. split; [exact Y1|].
+      intros Ho. apply (FLDT_same_recs (set_names (s_nclass s) (s_ndef s) (s_nmc s1) s1) s1); [exact (Y2 Ho)|reflexivity|].
+      split; [exists []; simpl; now rewrite app_nil_r|].
+      split; [exists [(nm, lenN (s_recs s))]; simpl; exact Hn|exists []; simpl; exact Hnd].
   - simpl. rewrite Hnd. exact D1.
   - exact D2.
 Qed.
@@ -2705,8 +2755,16 @@ Proof.
   destruct HI2 as (HR & HC & H2 & [D1 D2]). simpl in HR.
   split; [exact HR|]. split; [|split; [|split]].
   - intros n0 ci H. destruct (HC n0 ci H) as (cid & A & B & C). exists cid.
-    unfold find_class in *. simpl in A. rewrite Hn. auto.
-  - unfold CF2 in *. simpl in *. rewrite Hn. exact H2.
+    unfold find_class in *. simpl in A. rewrite Hn. split; [exact A|]. split; [exact B|].
+    intros Ho. destruct (C Ho) as [C1 C2]. split; [exact C1|].
+    apply (FLDT_same_recs (set_names (s_nclass s) (s_ndef s) (s_nmc s1) s1) s1); [exact C2|reflexivity|].
+    split; [exists []; simpl; now rewrite app_nil_r|].
+    split; [exists []; simpl; exact Hn|exists [(nm, lenN (s_recs s))]; simpl; exact Hnd].
+  - unfold CF2 in *. simpl in *. rewrite Hn. eapply Forall2_imp; [|exact H2].
+    intros a b [X [Y1 Y2]]. split; [exact X|]. split; [exact Y1|].
+    intros Ho. apply (FLDT_same_recs (set_names (s_nclass s) (s_ndef s) (s_nmc s1) s1) s1); [exact (Y2 Ho)|reflexivity|].
+    split; [exists []; simpl; now rewrite app_nil_r|].
+    split; [exists []; simpl; exact Hn|exists [(nm, lenN (s_recs s))]; simpl; exact Hnd].
   - unfold set_def. simpl. rewrite Hnd. constructor; [|exact D1].
     split; [reflexivity|]. simpl. split.
     + split; [rewrite Hr, nthN_app_last; discriminate|]. split; [intros X; congruence|reflexivity].
@@ -2731,21 +2789,29 @@ Proof.
   split; [exact B|]. split; [intros _; apply C; congruence|discriminate].
 Qed.
 
+Lemma CRT_close : forall s s3 rid ci id, CRT None s ci id -> lenN (s_recs s) <= rid -> CRT (Some rid) s3 ci id -> CRT None s3 ci id.
+Proof.
+  intros s s3 rid ci id [A _] Hle [B C]. split; [eapply CR_close; eassumption|].
+  intros _. apply C. destruct A as (Av & _).
+  destruct (nthN (s_recs s) id) eqn:E; [|congruence]. apply nthN_some_lt in E. unfold lenN in Hle. intros X. injection X as X. lia.
+Qed.
 (** at the end of a class body the entry of the class gets the field table the body has built *)
 Lemma Inh_close_class : forall f e e4 s s3 nm loc,
     Inh None e s -> RB f e4 s3 (lenN (s_recs s)) ->
-    e_cls e4 = (nm, mkCi loc []) :: e_cls e -> e_dtbl e4 = e_dtbl e -> e_defs e4 = e_defs e ->
+    e_cls e4 = (nm, mkCi loc [] []) :: e_cls e -> e_dtbl e4 = e_dtbl e -> e_defs e4 = e_defs e ->
     s_nclass s3 = (nm, lenN (s_recs s)) :: s_nclass s -> s_ndef s3 = s_ndef s ->
-    Inh None (set_cls e nm (mkCi loc (top_fields e4))) s3.
+    Inh None (set_cls e nm (mkCi loc (top_fields e4) (top_tfields e4))) s3.
 Proof.
   intros f e e4 s s3 nm loc HI0 R He Hdt Hde Hn Hnd.
   destruct R as [vars t fr frs rc Hsc Hfe Hrec Hlast Av Af At HI HS HT T1 T2 T3].
   destruct HI as (HR & HC & H2 & [D1 D2]). destruct HI0 as (HR0 & HC0 & H20 & [D10 D20]).
   assert (Hfld : FLD s3 (lenN (s_recs s)) (top_fields e4)) by (unfold top_fields; rewrite Hfe; exact Af).
+  assert (Hfldt : FLDT s3 (lenN (s_recs s)) (top_tfields e4)).
+  { destruct HT as (tf & tfs & Htf & _ & _ & _ & _ & FT & _). unfold top_tfields. rewrite Htf. exact FT. }
   split; [exact HR|]. split; [|split; [|split]].
   - intros n0 ci H. unfold set_cls in H. simpl in H. unfold find_class. rewrite Hn. simpl.
     destruct (name_eqb n0 nm) eqn:Hne.
-    + injection H as <-. exists (lenN (s_recs s)). split; [reflexivity|]. split; [congruence|]. intros _. exact Hfld.
+    + injection H as <-. exists (lenN (s_recs s)). split; [reflexivity|]. split; [congruence|]. intros _. split; [exact Hfld|exact Hfldt].
     + assert (H' : lookup n0 (e_cls e4) = Some ci) by (rewrite He; simpl; now rewrite Hne).
       destruct (HC n0 ci H') as (cid & A & B & C).
       unfold find_class in A. rewrite Hn in A. simpl in A. rewrite Hne in A.
@@ -2754,9 +2820,9 @@ Proof.
       destruct (nthN (s_recs s) cid) eqn:E; [|congruence]. apply nthN_some_lt in E. intros X. injection X as X. unfold lenN in X. lia.
   - unfold CF2 in *. rewrite He, Hn in H2. inversion H2 as [|a b l l' Hab Ft]; subst.
     unfold set_cls. simpl. rewrite Hn. constructor.
-    + split; [reflexivity|]. simpl. split; [congruence|]. split; [intros _; exact Hfld|discriminate].
+    + split; [reflexivity|]. split; [|intros _; exact Hfldt]. simpl. split; [congruence|]. split; [intros _; exact Hfld|discriminate].
     + eapply Forall2_imp; [|apply (Forall2_and _ _ _ _ _ _ H20 Ft)].
-      intros a0 b0 [[X0 Y0] [X Y]]. split; [exact X|]. eapply CR_close; [exact Y0|apply N.le_refl|exact Y].
+      intros a0 b0 [[X0 Y0] [X Y]]. split; [exact X|]. eapply CRT_close; [exact Y0|apply N.le_refl|exact Y].
   - simpl. rewrite Hdt, Hnd in D1. rewrite Hnd.
     eapply Forall2_imp; [|apply (Forall2_and _ _ _ _ _ _ D10 D1)].
     intros a0 b0 [(X0 & Y0 & Z0) (X & Y & Z)]. split; [exact X|]. split; [|exact Z].
@@ -2781,7 +2847,7 @@ Proof.
     destruct (nthN (s_recs s) cid) eqn:E; [|congruence]. apply nthN_some_lt in E. intros X. injection X as X. unfold lenN in X. lia.
   - unfold CF2 in *. change (e_cls (set_dtbl (set_def e nm loc) (top_fields e4))) with (e_cls e). rewrite He, Hn in H2. rewrite Hn.
     eapply Forall2_imp; [|apply (Forall2_and _ _ _ _ _ _ H20 H2)].
-    intros a0 b0 [[X0 Y0] [X Y]]. split; [exact X|]. eapply CR_close; [exact Y0|apply N.le_refl|exact Y].
+    intros a0 b0 [[X0 Y0] [X Y]]. split; [exact X|]. eapply CRT_close; [exact Y0|apply N.le_refl|exact Y].
   - rewrite Hdt, Hnd in D1. inversion D1 as [|a b l l' Hab Ft]; subst.
     unfold set_dtbl, set_def. simpl. rewrite Hnd. constructor.
     + destruct Hab as (X & Y & Z). split; [reflexivity|]. simpl. split; [|exact Z].
@@ -2806,7 +2872,7 @@ Proof.
     destruct (nthN (s_recs s) cid) eqn:E; [|congruence]. apply nthN_some_lt in E. intros X. injection X as X. unfold lenN in X. lia.
   - unfold CF2 in *. rewrite He, Hn in H2. rewrite Hn.
     eapply Forall2_imp; [|apply (Forall2_and _ _ _ _ _ _ H20 H2)].
-    intros a0 b0 [[X0 Y0] [X Y]]. split; [exact X|]. eapply CR_close; [exact Y0|apply N.le_refl|exact Y].
+    intros a0 b0 [[X0 Y0] [X Y]]. split; [exact X|]. eapply CRT_close; [exact Y0|apply N.le_refl|exact Y].
   - rewrite Hdt, Hnd in D1. rewrite Hnd.
     eapply Forall2_imp; [|apply (Forall2_and _ _ _ _ _ _ D10 D1)].
     intros a0 b0 [(X0 & Y0 & Z0) (X & Y & Z)]. split; [exact X|]. split; [|exact Z].
@@ -2816,7 +2882,7 @@ Qed.
 
 Lemma self_start_cls : forall e s s1 nm loc,
     Inh None e s -> s_nclass s1 = (nm, lenN (s_recs s)) :: s_nclass s ->
-    forall n0 ci, lookup n0 (e_cls (set_cls e nm (mkCi loc []))) = Some ci ->
+    forall n0 ci, lookup n0 (e_cls (set_cls e nm (mkCi loc [] []))) = Some ci ->
                   find_class s1 n0 = Some (lenN (s_recs s)) -> ci_fields ci = [].
 Proof.
   intros e s s1 nm loc HI Hn n0 ci H1 H2. unfold set_cls in H1. simpl in H1.
@@ -2835,27 +2901,27 @@ Qed.
 Lemma same_globals_spec_parents : forall f l e, same_globals e (snd (spec_parents f e l)).
 Proof.
   intros f l. induction l as [|c r IH]; intros e; simpl; [apply same_globals_refl|].
-  destruct (spec_parents f (add_inherited e (classref_fields e c)) r) as [ev2 e2] eqn:E. simpl.
+  destruct (spec_parents f (add_inherited e (classref_fields e c) (classref_ftys e c)) r) as [ev2 e2] eqn:E. simpl.
   eapply same_globals_trans; [apply same_globals_add_inherited|].
-  specialize (IH (add_inherited e (classref_fields e c))). rewrite E in IH. exact IH.
+  specialize (IH (add_inherited e (classref_fields e c) (classref_ftys e c))). rewrite E in IH. exact IH.
 Qed.
 
 Lemma same_g5_spec_parents : forall f l e, same_g5 e (snd (spec_parents f e l)).
 Proof.
   intros f l. induction l as [|c r IH]; intros e; simpl; [apply same_g5_refl|].
-  destruct (spec_parents f (add_inherited e (classref_fields e c)) r) as [ev2 e2] eqn:E. simpl.
+  destruct (spec_parents f (add_inherited e (classref_fields e c) (classref_ftys e c)) r) as [ev2 e2] eqn:E. simpl.
   eapply same_g5_trans; [apply same_g5_add_inherited|].
-  specialize (IH (add_inherited e (classref_fields e c))). rewrite E in IH. exact IH.
+  specialize (IH (add_inherited e (classref_fields e c) (classref_ftys e c))). rewrite E in IH. exact IH.
 Qed.
 
 Lemma spec_class_eq : forall f e i targs ps b,
     spec_stmt f e (SClass i targs ps b)
     = let loc := at_file f (i_rng i) in
-      let e1 := push_vars (set_cls e (i_name i) (mkCi loc [])) [] in
+      let e1 := push_vars (set_cls e (i_name i) (mkCi loc [] [])) [] in
       let '(ev1, e2) := match targs with Some l => spec_targs f e1 l | None => ([], e1) end in
       let '(ev2, e3) := spec_parents f e2 ps in
       let '(ev3, e4) := spec_items f e3 b in
-      (ev1 ++ ev2 ++ ev3, set_cls e (i_name i) (mkCi loc (top_fields e4))).
+      (ev1 ++ ev2 ++ ev3, set_cls e (i_name i) (mkCi loc (top_fields e4) (top_tfields e4))).
 Proof. intros. reflexivity. Qed.
 
 (** the body of a record declares no class and no def *)
@@ -2910,7 +2976,7 @@ Section CasesB5.
     set (final := snd (index_stmt files (S n) (SClass i targs ps b) s)) in *.
     rewrite spec_class_eq in *. cbv zeta in HR |- *.
     set (loc := at_file f (i_rng i)) in *.
-    set (e0 := set_cls e (i_name i) (mkCi loc [])) in *.
+    set (e0 := set_cls e (i_name i) (mkCi loc [] [])) in *.
     set (e1 := push_vars e0 []) in *.
     destruct (match targs with Some l => spec_targs f e1 l | None => ([], e1) end) as [ev1 e2] eqn:Et.
     destruct (spec_parents f e2 ps) as [ev2 e3] eqn:Ep.
@@ -2938,7 +3004,7 @@ Section CasesB5.
       - unfold e0, rid. eapply self_start_cls; eauto. }
     assert (G0 : Pre2g f e1 (pushed (KRecord rid) s1)).
     { apply Pre2g_pushed. unfold e0. rewrite <- Hloc.
-      apply (Pre2g_add_record f e s (i_name i) true mloc []). now apply Pre2_g. }
+      apply (Pre2g_add_record f e s (i_name i) true mloc [] []). now apply Pre2_g. }
     unfold body, seq in Hb'.
     (* template arguments *)
     set (st := snd ((match targs with Some l => iterM (index_targ n) l | None => ret tt end) (pushed (KRecord rid) s1))) in *.
@@ -3124,7 +3190,7 @@ Section CasesB7.
       rewrite forallb_app in HR. apply andb_true_iff in HR. destruct HR as [HR2 HR3].
       apply X; [| | | | |reflexivity|exact HR2|exact HR3|exact Hb].
       + eapply (self_start_def e e0 s s1 HI); [reflexivity|exact Hnc].
-      + unfold e0. rewrite <- Hloc. apply (Pre2g_add_record f e s (i_name i) false mloc []). now apply Pre2_g.
+      + unfold e0. rewrite <- Hloc. apply (Pre2g_add_record f e s (i_name i) false mloc [] []). now apply Pre2_g.
       + intros e5. split; reflexivity.
       + intros e5 [(A & B & C & D) _]. split; [|split; [|split]].
         * intros n0. unfold lookup_class. change (e_cls (set_dtbl e0 (top_fields e5))) with (e_cls e0). now rewrite A.
